@@ -683,8 +683,11 @@ def replay(ctx, path):
     l2.write_crate(ctx, "c07replay", {"m0": r["pretty"]}, make_main(blocks))
     ok, out = l2.build(ctx, "c07replay")
     if not ok:
-        ctx.log("rustc rejects the emitted code:\n" + out[-1500:])
-        vlib.violation(ctx, {"failing_input": fi, "rustc": out[-1500:]})
+        expected = any("nocompile" in ln.split(" | ")[-1] for ln in model.split("\n") if not ln.startswith("enum "))
+        ctx.log("rustc rejects the emitted code" + (" — as the model predicts (a plain `into` on an enum without From)" if expected else "") + ":\n" + out[-800:])
+        l2.cleanup(ctx, "c07replay")
+        if not expected:
+            vlib.violation(ctx, {"failing_input": fi, "rustc": out[-1500:]})
         return
     by_site, crashes = run_driver(ctx, "c07replay", len(sites))
     mlines = {ln.split(" ")[0]: ln for ln in model.split("\n")}
